@@ -702,6 +702,17 @@ impl IdmServerProxyWriteTransaction<'_> {
             missing_scim.remove(&entry.get_uuid());
         });
 
+        // The stubs are created through the internal identity, which is allowed to use the
+        // reserved system uuid range (and tags such entries as builtin). A sync agreement must
+        // never be able to do that, so refuse these ids here.
+        if missing_scim
+            .keys()
+            .any(|u| *u < DYNAMIC_RANGE_MINIMUM_UUID)
+        {
+            error!("Unable to proceed: sync request contains an entry uuid within the reserved system range");
+            return Err(OperationError::InvalidEntryState);
+        }
+
         // For entries that do not exist, create stub entries. We don't create the external ID here
         // yet, because we need to ensure that it's unique.
         let create_stubs: Vec<EntryInitNew> = missing_scim
